@@ -12,7 +12,7 @@ func tokenString(s string) string {
 	s = strings.Trim(s, " \t\n\r")
 	lastChar := len(s) -1
 	if s[0] == char_doublequote && s[lastChar] == char_doublequote {
-		return s[1:lastChar]
+		return unescape(s[1:lastChar])
 	}
 	if s[0] == char_singlequote && s[lastChar] == char_singlequote {
 		return s[1:lastChar]
@@ -54,6 +54,35 @@ func chkErr2(l *lexer, keyword string, extension *meta.Extension) bool {
     }
 
     return false
+}
+
+// unescape resolves the escapes allowed in a double-quoted string
+// (RFC 7950 Sec 6.1.3): \n, \t, \" and \\
+func unescape(s string) string {
+	if strings.IndexByte(s, '\\') < 0 {
+		return s
+	}
+	var b strings.Builder
+	for i := 0; i < len(s); i++ {
+		if s[i] == '\\' && i+1 < len(s) {
+			switch s[i+1] {
+			case 'n':
+				b.WriteByte('\n')
+				i++
+				continue
+			case 't':
+				b.WriteByte('\t')
+				i++
+				continue
+			case '"', '\\':
+				b.WriteByte(s[i+1])
+				i++
+				continue
+			}
+		}
+		b.WriteByte(s[i])
+	}
+	return b.String()
 }
 
 func trimQuotes(s string) string {
